@@ -5,7 +5,9 @@ use crate::clock;
 use anyhow::{anyhow, Result};
 use axum_server::Handle;
 use futures::StreamExt;
+use serde::{Deserialize, Serialize};
 use serde_json::{json, Value};
+use sos_client_storage::{AccessOptions, NewFolderOptions};
 use sos_account::{Account, LocalAccount};
 use sos_core::{
     commit::CommitHash,
@@ -314,3 +316,82 @@ pub fn log_type_name(t: &EventLogType) -> String {
         EventLogType::Folder(id) => format!("folder:{}", id),
     }
 }
+
+#[derive(Clone, Serialize, Deserialize)]
+pub struct Template {
+    pub dir: String,
+    pub account_id: String,
+    pub default_folder: String,
+    pub f1: String,
+    pub s0: String,
+    pub s1: String,
+    pub ndev: usize,
+}
+
+pub async fn make_template(
+    dir: &Path,
+    backend: Backend,
+    server_db: bool,
+    ndev: usize,
+) -> Result<Template> {
+    clock::install();
+    clock::set_device(0);
+    let d1 = dir.join("d0");
+    let mut dev = Dev::create(&d1, backend, "sync-account", true).await?;
+    let default = dev.account.default_folder().await.unwrap();
+    let f1 = dev
+        .account
+        .create_folder(NewFolderOptions::new("folder-one".to_string()))
+        .await?
+        .folder;
+    let (m, s) = crate::gen::secret("note", 0, "s0");
+    let s0 = dev
+        .account
+        .create_secret(
+            m,
+            s,
+            AccessOptions {
+                folder: Some(*default.id()),
+                ..Default::default()
+            },
+        )
+        .await?
+        .id;
+    let (m, s) = crate::gen::secret("login", 0, "s1");
+    let s1 = dev
+        .account
+        .create_secret(
+            m,
+            s,
+            AccessOptions {
+                folder: Some(*f1.id()),
+                ..Default::default()
+            },
+        )
+        .await?
+        .id;
+    let account_id = dev.account_id;
+    // push to a server
+    let server = start_server(&dir.join("server"), server_db, None, None).await?;
+    let device = Device::connect(dev, 0, &server.origin).await?;
+    match device.sync().await {
+        SyncResult::Ok => {}
+        other => return Err(anyhow!("template sync failed: {:?}", other)),
+    }
+    device.close().await;
+    server.stop().await;
+    for k in 1..ndev + 1 {
+        // devices 1..ndev-1 are editors, device ndev is the observer
+        crate::fsutil::copy_dir(&d1, &dir.join(format!("d{}", k)))?;
+    }
+    Ok(Template {
+        dir: dir.to_string_lossy().to_string(),
+        account_id: account_id.to_string(),
+        default_folder: default.id().to_string(),
+        f1: f1.id().to_string(),
+        s0: s0.to_string(),
+        s1: s1.to_string(),
+        ndev,
+    })
+}
+
